@@ -16,7 +16,10 @@ Definition tsvd (M : arr2) (d2 : Q) (rmax : nat) (left_ortho : bool) (a : svd_an
   then (tab2 m 1 (fun _ _ => 0), tab2 1 n (fun _ _ => 0))
   else
     let S := map (fun x => Qred (x * x)) s in
-    let r := choose_rank S d2 rmax in
+    (* singular values <= s_0 * max(m, n) * eps (float64: eps = 2^-52) are null directions *)
+    let tolq := Qred (inject_Z (Z.of_nat (Nat.max m n)) * (1 # 4503599627370496)) in
+    let null := length (filter (fun x => Qle_bool x (nth 0 s 0 * tolq)) s) in
+    let r := choose_rank S d2 rmax null in
     let U := sv_U a in
     let sinv := fun k => let x := nth k s 0 in if Qle_bool x 0 then 0 else Qred (/ x) in
     if left_ortho
